@@ -761,7 +761,7 @@ static Boolean GetSymSection(char* Name, LongInt* Erg, tStrComp const* pUnexpCom
     char*    q;
     int      l = strlen(Name);
 
-    if (Name[l - 1] != ']') {
+    if ((l == 0) || (Name[l - 1] != ']')) {
         *Erg = -2;
         return True;
     }
